@@ -86,3 +86,48 @@ Theorem C08_quantile_nonneg_from :
        S <> [] -> (qlow a S <= t)%Q -> exists s : R, sumV Fquantile (Q2R a) S (Q2R t) = Some s /\ 0 <= s.
 Proof. exact V_quantile_nonneg_from. Qed.
 Print Assumptions C08_quantile_nonneg_from.
+
+(* ---- the SAME source, regenerated on every run by translate/gen_f.py as a function over PRIMITIVE BINARY64 floats (coq/gen/Gen_*_f.v): what numpy computes, one rounding per operation in source order; compared bit for bit with the implementation on arbitrary doubles (harness/run_genfloat.py).  Print Assumptions lists Coq's primitive float / integer operations only. ---- *)
+From Coq Require Import PrimFloat Bool.
+From MD Require Import lib.NumpyF gen.Gen_ident_f gen.Gen_scoring_f proofs.GenFloatProps.
+Open Scope float_scope.
+
+Theorem C08_float_V_mean :
+  forall level y z : float, gen_V_f Fmean level y z = FVal (z - y).
+Proof. exact gen_V_f_mean. Qed.
+Print Assumptions C08_float_V_mean.
+
+Theorem C08_float_V_median :
+  forall level y z : float, gen_V_f Fmedian level y z = FVal (ge_ind_f z y - 0.5).
+Proof. exact gen_V_f_median. Qed.
+Print Assumptions C08_float_V_median.
+
+Theorem C08_float_V_median_is_quantile_half :
+  forall level y z : float, gen_V_f Fmedian level y z = gen_V_f Fquantile 0.5 y z.
+Proof. exact gen_V_f_median_is_quantile_half. Qed.
+Print Assumptions C08_float_V_median_is_quantile_half.
+
+Theorem C08_float_V_quantile :
+  forall level y z : float,
+       level_out level = false -> gen_V_f Fquantile level y z = FVal (ge_ind_f z y - level).
+Proof. exact gen_V_f_quantile. Qed.
+Print Assumptions C08_float_V_quantile.
+
+Theorem C08_float_V_expectile :
+  forall level y z : float,
+       level_out level = false ->
+       gen_V_f Fexpectile level y z = FVal (2 * np_abs_f (ge_ind_f z y - level) * (z - y)).
+Proof. exact gen_V_f_expectile. Qed.
+Print Assumptions C08_float_V_expectile.
+
+Theorem C08_float_V_level_guard :
+  forall (f : fnl) (level y z : float),
+       f = Fexpectile \/ f = Fquantile -> level_out level = true -> gen_V_f f level y z = FValueErr.
+Proof. exact gen_V_f_level_guard. Qed.
+Print Assumptions C08_float_V_level_guard.
+
+Theorem C08_float_V_total :
+  forall (f : fnl) (level y z : float),
+       f <> Fother -> level_out level = false -> is_val (gen_V_f f level y z) = true.
+Proof. exact gen_V_f_total. Qed.
+Print Assumptions C08_float_V_total.
